@@ -102,7 +102,8 @@ pub fn build(p: P) -> Scenario<Arc<CS>> {
             sa.sa_sigaction = nested_send as usize;
             libc::sigaction(libc::SIGUSR1, &sa, std::ptr::null_mut());
         }
-        let ch = Box::new(Channel::new());
+        // scenarios named *_default build the channel the way the exfiltrators do (Default), not with new()
+        let ch: Box<Channel<Tracked>> = if pp.name.ends_with("_default") { Box::default() } else { Box::new(Channel::new()) };
         let mut n = 0;
         for _ in 0..pp.pre.0 {
             do_send(&ch, 0x40 + n);
@@ -556,6 +557,8 @@ pub fn scenarios(prop: &str, tier: Tier) -> Vec<Item> {
     for (name, k) in [("full5_c2_p1", 0u32), ("full5_rot2_c2_p1", 2)] {
         v.push(item(build(p(name, (k, 5), &[1], &[1, 1], &[], 0, false, 0)), Some(if q { 3 } else { 4 }), "completely full channel (no free slot queued; fresh and rotated, so that different slot numbers meet), two consumers return their slots at the same time, then a producer reuses one"));
     }
+    // the other constructor
+    v.push(item(build(p("five_fit_p2_c1_default", (1, 3), &[1, 1], &[1], &[], 0, false, 0)), Some(if q { 3 } else { 4 }), "channel built through Default (as the exfiltrators do), 3 values in, 2 producers + 1 consumer: all five slots exist"));
     // a send that found the channel full is overtaken by a complete drain and refill
     let mut pr = p("full5_p1_vs_drain_and_refill", (0, 5), &[1], &[], &[], 0, false, 0);
     pr.refillers = vec![(5, 5)];
